@@ -119,6 +119,35 @@ def build():
     one(r"if\s+let\s+Some\(\(mut\s+req,\s*_\)\)\s*=\s*query_vec\.try_remove\(index\)\s*\{\s*_\s*=\s*req\.sender\.send\(Err\(err\)\);\s*\}", irq,
         "insert_req takes the request out again when it cannot be converted")
 
+    # ---- stream::Config response timeouts
+    m = one(r"const\s+RESPONSE_TIMEOUT:\s*DefMinMax<Duration>\s*=\s*DefMinMax::new\(\s*([^,]+),\s*([^,]+),\s*([^,]+),?\s*\)", st, "stream RESPONSE_TIMEOUT")
+    defs.append(("stream_timeout_default_ms", "N", "%d%%N" % dur(m.group(1), "RESPONSE_TIMEOUT default")))
+    defs.append(("stream_timeout_min_ms", "N", "%d%%N" % dur(m.group(2), "RESPONSE_TIMEOUT min")))
+    defs.append(("stream_timeout_max_ms", "N", "%d%%N" % dur(m.group(3), "RESPONSE_TIMEOUT max")))
+    cfg = impl_body(st, r"impl\s+Config\s*\{")
+    srt = fn_body(cfg, "set_response_timeout")
+    one(r"self\.response_timeout\s*=\s*RESPONSE_TIMEOUT\.limit\(timeout\);", srt, "set_response_timeout assigns response_timeout")
+    a_single = len(re.findall(r"self\.single_response_timeout\s*=\s*(?:self\.response_timeout|RESPONSE_TIMEOUT\.limit\(timeout\))\s*;", srt))
+    a_stream = len(re.findall(r"self\.streaming_response_timeout\s*=\s*(?:self\.response_timeout|RESPONSE_TIMEOUT\.limit\(timeout\))\s*;", srt))
+    if len(re.findall(r"self\.\w+\s*=", srt)) != 1 + a_single + a_stream:
+        raise GenError("set_response_timeout has an assignment the extractor does not understand")
+    defs.append(("set_rt_assigns_single", "bool", "true" if a_single == 1 else "false"))
+    defs.append(("set_rt_assigns_streaming", "bool", "true" if a_stream == 1 else "false"))
+    sst = fn_body(cfg, "set_streaming_response_timeout")
+    one(r"^\s*self\.streaming_response_timeout\s*=\s*RESPONSE_TIMEOUT\.limit\(timeout\);\s*$", sst, "set_streaming_response_timeout")
+    dflt = fn_body(st, "default", after="impl Default for Config")
+    for f in ("response_timeout", "single_response_timeout", "streaming_response_timeout"):
+        one(r"\b%s:\s*RESPONSE_TIMEOUT\.default\(\)" % f, dflt, "Config::default %s" % f)
+    run = fn_body(st, "run", after="impl<Stream, Req, ReqMulti> Transport<Stream, Req, ReqMulti>\nwhere")
+    one(r"if\s+req\.sender\.is_stream\(\)\s*\{\s*self\.config\.response_timeout\s*=\s*self\.config\.streaming_response_timeout;\s*\}\s*else\s*\{\s*self\.config\.response_timeout\s*=\s*self\.config\.single_response_timeout;\s*\}",
+        run, "Transport::run selects the timeout by request kind")
+    defs.append(("run_selects_timeout_by_kind", "bool", "true"))
+    m = one(r"if\s+elapsed\s*" + OP + r"\s*self\.config\.response_timeout\s*\{\s*Self::error\(\s*Error::StreamReadTimeout,", run, "Transport::run read timeout test")
+    defs.append(("run_timeout_fires", "N -> N -> bool", "fun elapsed timeout => " + cmp_fn(m.group(1), "elapsed", "timeout")))
+    lim = fn_body(strip_comments(read("src/utils/config.rs")), "limit")
+    one(r"^\s*cmp::max\(\s*self\.min\s*,\s*cmp::min\(\s*self\.max\s*,\s*value\s*\)\s*\)\s*$", lim, "DefMinMax::limit")
+    defs.append(("defminmax_limit", "N -> N -> N -> N", "fun lo hi v => N.max lo (N.min hi v)"))
+
     # ---- RequestMessage::is_answer
     rq = strip_comments(read("src/net/client/request.rs"))
     ia_ = fn_body(rq, "is_answer", after="ComposeRequest\n    for RequestMessage<Octs>")
